@@ -16,21 +16,23 @@ META = {
                  "modules compiled with the working tree's embossc and run on solved Ok buffers), model evaluated in Coq "
                  "(vm_compute)",
     "level_text": "Machine-checked theorems (Coq 8.16, no axioms): for all 8 C++ integer types, all values, bases 2/10/16, "
-                  "with/without grouping, decode(encode x) = x with no arithmetic step leaving its C++ type; DecodeInteger "
-                  "equals the range-checked mathematical value of the numeral for EVERY input string (so overflowing and "
-                  "malformed numerals are rejected, never wrapped); ReadToken/DiscardWhitespace never fail and equal pure "
-                  "token functions; structure level: fields are emitted in the given (dependency) order, Skip/absent "
-                  "fields are not emitted, Emit/default present fields are, and UpdateFromTextStream of the written text "
-                  "performs exactly the TryToWrite calls of the emitted writable fields, in order (scalars, enums, nested "
-                  "structures; for every re-readable option set). Tied to /repo each run by byte-for-byte comparison of "
-                  "the model's text with WriteToString, C++ read-back into a zeroed buffer, and UpdateFromText on "
-                  "perturbed texts.",
+                  "with/without grouping, decode(encode x) = x with no arithmetic step leaving its C++ type and no write outside "
+                  "the stack buffer; DecodeInteger equals the range-checked mathematical value of the numeral for EVERY input "
+                  "string (so overflowing and malformed numerals are rejected, never wrapped); ReadToken/DiscardWhitespace never "
+                  "fail and equal pure token functions; structure level: fields are emitted in the given (dependency) order, "
+                  "Skip/absent fields are not emitted, Emit/default present fields are, and for every re-readable option set "
+                  "UpdateFromTextStream of the written text returns true, consumes the text and performs exactly the "
+                  "TryToWrite calls of the emitted writable fields, in order (scalars, enums by name or number, nested structures, "
+                  "arrays in both layouts). Tied to /repo each run by byte-for-byte comparison of the model's text with "
+                  "WriteToString, C++ read-back into a zeroed buffer, and UpdateFromText on perturbed texts.",
     "level_note": "Float text is excluded from the theorems and the model (libc snprintf/sscanf are not modelled). "
-                  "struct_roundtrip is `_partial`: the text-level theorem covers scalars/enums/nested structures; arrays are "
-                  "modelled and swept in Coq on every generated case but not proved; the storage step (a sequence of "
-                  "TryToWrite calls in dependency order restores the fields; needs the layout semantics of C01/C03/C15) is a "
-                  "named hypothesis of struct_roundtrip_partial and is observed on the C++ side. allow_partial_output is not "
-                  "modelled. The `unsigned offset` of DecodeInteger is unbounded in the model (texts >= 2^32 chars excluded). "
+                  "struct_roundtrip is `_partial`: the storage step (the sequence of TryToWrite calls, in dependency order, on the "
+                  "zeroed buffer succeeds and reads back; needs the layout semantics of C01/C03/C15) is the named hypothesis "
+                  "Hstore of struct_roundtrip_partial and is observed on the C++ side on every generated case; everything the text "
+                  "contributes is proved (text_roundtrip, array_roundtrip). The generator's text_output table is regenerated "
+                  "from the working tree each run and checked against gentab_ok. allow_partial_output is not modelled. The "
+                  "`unsigned offset` of DecodeInteger is unbounded in the model (texts >= 2^32 chars excluded). Round trip "
+                  "presupposes that fields other fields depend on are not marked Skip. "
                   "Trusted: Coq kernel + vm_compute, harness/gen_text.py (module/buffer generator, IR -> abstract view), "
                   "harness/props/c06.py, g++ 12, cpp_build.py.",
 }
@@ -1019,7 +1021,7 @@ def run(ctx):
                        "round trip: fields that other emitted fields depend on are not marked Skip",
                        "storage step of struct_roundtrip_partial (TryToWrite sequence in dependency order restores the fields) is a hypothesis; observed on the C++ side"]
     ctx.audit()
-    ctx.check_theorems("EmbossV.Text.Properties_C06", "Text/Properties_C06.v", expect_min=28)
+    ctx.check_theorems("EmbossV.Text.Properties_C06", "Text/Properties_C06.v", expect_min=30)
     gt, err = gen_table_probe(ctx)
     if gt is None:
         ctx.obligation("generator text_output table regenerated", False)
